@@ -247,15 +247,37 @@ Proof.
 Qed.
 Print Assumptions C05_stage_order_matters.
 
-(* REFUTED (F-C05-g): the kfilt body does not preserve the number of channels when ntr_pad
-   exceeds it, even for a shape-preserving spatial filter: np.flipud(xf[:ntr_pad]) has only nx
-   rows but xf[ntr_pad:-ntr_pad] removes ntr_pad rows from each side. *)
-Theorem C05_kfilt_padding_short_block_refuted :
-  exists (H : Z -> list (list Q) -> list (list Q)) p (x : list (list Q)),
-    (forall b m, length (H b m) = length m) /\
-    length (kfilt_base Q q0 q1 qadd qmul qdiv qeqb qabs H (fun _ _ => []) (fun _ => []) q0 p x) <> length x.
-Proof. exact kfilt_short_block_refuted. Qed.
-Print Assumptions C05_kfilt_padding_short_block_refuted.
+(* kfilt and fk bodies (after the repair 808a76c: ntr_pad = min(int(ntr_pad), nx)): for EVERY
+   ntr_pad >= 0 (also larger than the number of channels), every ntr_tap and every gain-control
+   setting the result has as many channels as the input, provided the inner filter (sosfiltfilt
+   along channels / the f-k multiplication) preserves the shape and the taper vector has the
+   padded length.  Consequently the spatial step of destripe with the k-filter is defined for
+   every label vector, however few channels are inside the brain. *)
+Theorem C05_kfilt_fk_preserve_channel_count :
+  forall R rO rI radd rmul rsub rdiv ropp rinv rleb reqb (rabs : R -> R),
+  ordered_field R rO rI radd rmul rsub rdiv ropp rinv rleb reqb ->
+  forall taper eps window, (forall nxp tap, length (taper nxp tap) = nxp) ->
+  (forall H p (x : list (list R)), (forall b m, length (H b m) = length m) ->
+     length (kfilt_base R rO rI radd rmul rdiv reqb rabs H taper window eps p x) = length x) /\
+  (forall F p (x : list (list R)), (forall q m, length (F q m) = length m) ->
+     length (fk_base R rO rI radd rmul rdiv reqb rabs F taper window eps p x) = length x) /\
+  (forall H p labels (x : list (list R)), (forall b m, length (H b m) = length m) ->
+     length labels = length x ->
+     let y := spatial_step R (kfilt_base R rO rI radd rmul rdiv reqb rabs H taper window eps p) labels x in
+     length y = length x /\
+     gather [] (inside_brain labels) y =
+     kfilt_base R rO rI radd rmul rdiv reqb rabs H taper window eps p (gather [] (inside_brain labels) x)).
+Proof.
+  intros until 1. destruct H as (F & T & C & L & E). intros taper eps window HT.
+  split; [|split].
+  - intros H p x HL. now apply (kfilt_base_length R rO rI radd rmul rsub rdiv ropp rinv rleb reqb rabs F T C L E).
+  - intros Ff p x HL. now apply (fk_base_length R rO rI radd rmul rsub rdiv ropp rinv rleb reqb rabs F T C L E).
+  - intros H p labels x HL Hlab.
+    destruct (spatial_step_spec R (kfilt_base R rO rI radd rmul rdiv reqb rabs H taper window eps p) labels x)
+      as (A & _ & B); auto.
+    intros m. now apply (kfilt_base_length R rO rI radd rmul rsub rdiv ropp rinv rleb reqb rabs F T C L E).
+Qed.
+Print Assumptions C05_kfilt_fk_preserve_channel_count.
 
 (* ---- the exact-arithmetic limit of "at least 40 dB" ------------------------ *)
 
